@@ -199,7 +199,11 @@ class _HyperVolume:
         dimensions = len(self.referencePoint)
         nodeList = _MultiList(dimensions)
         nodes = [_MultiList.Node(dimensions, point) for point in front]
-        for i in range(dimensions):
+        # Sort from the last dimension down (the sorts are stable), so that points with
+        # equal i-th coordinates are ordered in list i as they are in list i + 1.  The
+        # ignore flags of hvRecursive rely on this: a point flagged as dominated at one
+        # level must still be preceded by its dominating point at the levels below.
+        for i in reversed(range(dimensions)):
             self.sortByDimension(nodes, i)
             nodeList.extend(nodes, i)
         self.list = nodeList
